@@ -29,9 +29,7 @@ fn lemma<S: DateFilter + ?Sized>(sel: &S, d: NaiveDate, d2: NaiveDate, ctx: &Con
             }
             kani::cover!(d < d2 && d2 < h, "a skipped day is reachable");
         }
-        None => {
-            kani::cover!(true, "no hint (iterator steps to the next day)");
-        }
+        None => {} // no hint: the iterator steps to the next day, nothing to decide
     }
 }
 
